@@ -43,6 +43,8 @@ func (t *mutableTree) Commit(savers ...saver) (hash []byte, version int64, err e
 		}
 	}
 
+	verifInCommit()
+
 	hash, version, err = t.tree.SaveVersion()
 	if err != nil {
 		return nil, 0, err
